@@ -37,6 +37,7 @@ func goid() int64 {
 type umsg struct {
 	id   int
 	slow bool
+	pan  bool // the handler panics: run() recovers, calls EscalateFailure and returns
 }
 // ubatch: an actor.MessageBatch — the mailbox posts its elements first, then the batch message itself
 type ubatch struct {
@@ -49,6 +50,7 @@ func (b *ubatch) GetMessages() []interface{} { return b.elems }
 type smsg struct {
 	id   int
 	slow bool
+	pan  bool
 }
 
 type thread struct {
@@ -62,6 +64,7 @@ type thread struct {
 	curMsg  int  // message about to be pushed (posters)
 	curSK   string
 	curSlow bool
+	curPan  bool
 	curBt   string // "b<n>" / "e<n>": this push is a batch message whose n elements were the previous n pushes
 	flat    []pmsg // posters: every push this thread will perform, in order (batch elements, then the batch itself)
 	fi      int
@@ -79,7 +82,15 @@ type ctl struct {
 	mb      *mailbox.SmoothFrameMailbox
 	queue   []func()
 	cons    *thread
+	tput    int      // what Throughput() answers (run()'s `if i > t` branch)
+	escLog  []string // EscalateFailure calls during the current step
+	escAllU []int
+	escAllS []int
+	runStart time.Time // virtual time at which the current run() started (run()'s beginTime)
 }
+
+// run()'s recover path logs the invoker with %v: keep that short (and away from the controller's fields)
+func (c *ctl) String() string { return "c09-controller" }
 
 func (c *ctl) register(th *thread) {
 	c.mu.Lock()
@@ -105,7 +116,7 @@ func (c *ctl) yield(point string) {
 	if (point == "pu.push" || point == "ps.push") && th.fi < len(th.flat) {
 		m := th.flat[th.fi]
 		th.fi++
-		th.curMsg, th.curSK, th.curSlow, th.curBt = m.id, m.sk, m.slow, ""
+		th.curMsg, th.curSK, th.curSlow, th.curBt, th.curPan = m.id, m.sk, m.slow, "", m.pan
 		if len(m.batch) > 0 {
 			th.curBt = fmt.Sprintf("%s%d", m.bk, len(m.batch))
 		}
@@ -148,7 +159,7 @@ func (c *ctl) startConsumer() {
 		}
 	}()
 }
-func (c *ctl) Throughput() int { return 99 }
+func (c *ctl) Throughput() int { return c.tput }
 
 // invoker
 func (c *ctl) InvokeSystemMessage(m interface{}) {
@@ -159,6 +170,9 @@ func (c *ctl) InvokeSystemMessage(m interface{}) {
 		c.mu.Unlock()
 		if s.slow {
 			time.Sleep(12 * time.Millisecond) // a slow system handler also exhausts the frame budget
+		}
+		if s.pan {
+			panic("system handler panics")
 		}
 	}
 }
@@ -181,9 +195,34 @@ func (c *ctl) InvokeUserMessage(m interface{}) {
 		if u.slow {
 			time.Sleep(12 * time.Millisecond) // past the 10 ms frame budget (virtual time)
 		}
+		if u.pan {
+			panic("user handler panics")
+		}
 	}
 }
-func (c *ctl) EscalateFailure(reason interface{}, message interface{}) {}
+func (c *ctl) EscalateFailure(reason interface{}, message interface{}) {
+	id := -1
+	if env, ok := message.(actor.MessageEnvelope); ok {
+		message = env.Message
+	}
+	sys := false
+	switch m := message.(type) {
+	case *umsg:
+		id = m.id
+	case *smsg:
+		id, sys = m.id, true
+	case *ubatch:
+		id = m.id
+	}
+	c.mu.Lock()
+	c.escLog = append(c.escLog, strconv.Itoa(id))
+	if sys {
+		c.escAllS = append(c.escAllS, id)
+	} else {
+		c.escAllU = append(c.escAllU, id)
+	}
+	c.mu.Unlock()
+}
 
 // bystander: invoker + dispatcher of the second mailbox (its scheduled runs are deferred)
 type bystander struct {
@@ -213,6 +252,7 @@ type poster struct {
 type pmsg struct {
 	id    int
 	slow  bool
+	pan   bool   // handler panics
 	sk    string // n s r (system)
 	batch []pmsg // user: this message is a MessageBatch with these elements (posted first by the mailbox)
 	bk    string // "b" raw batch, "e" batch inside a MessageEnvelope
@@ -231,14 +271,25 @@ var cpcOf = map[string]string{"cons.take": "wait", "run.iter": "iter", "bp.cas":
 	"run.popu": "popu", "pm.idle": "a1", "pm.lsys": "r0", "pm.luser": "r1", "pm.lpaused": "r2", "pm.decide": "r3",
 	"sc.loadp": "cl", "sc.cas": "ck", "sc.disp": "cd"}
 
-func (c *ctl) state(inv string) string {
+// runners = processMessages runs that exist: handed to the dispatcher and not taken yet, about to be handed over
+// (a schedule() caller — poster, helper or the consumer itself — that won the CAS and is parked before
+// dispatcher.Schedule), or executing and not yet past "store idle".  The property wants at most one.
+func (c *ctl) state(inv, esc string) string {
 	st, um, sm, susp, paused := c.mb.VerifState()
-	cpc, dq, runners := "wait", len(c.queue), 0
+	cpc, dq, runners := "wait", len(c.queue), len(c.queue)
 	if c.cons != nil && c.cons.point != "cons.take" {
-		runners = 1
 		cpc = cpcOf[c.cons.point]
+		switch c.cons.point {
+		case "run.iter", "bp.cas", "run.pops", "run.lsusp", "run.popu", "pm.idle":
+			runners++
+		}
 	}
-	return fmt.Sprintf("st=%d um=%d sm=%d susp=%d paused=%d cpc=%s dq=%d runners=%d inv=%s", st, um, sm, susp, paused, cpc, dq, runners, inv)
+	for _, th := range c.threads {
+		if th.parked && !th.done && th.point == "sc.disp" {
+			runners++
+		}
+	}
+	return fmt.Sprintf("st=%d um=%d sm=%d susp=%d paused=%d cpc=%s dq=%d runners=%d inv=%s esc=%s", st, um, sm, susp, paused, cpc, dq, runners, inv, esc)
 }
 
 func ids(l []int) string {
@@ -250,8 +301,8 @@ func ids(l []int) string {
 }
 
 // runCase executes one case. `choose` picks the next thread among the parked ones.
-func runCase(h *hx.T, posters []poster, choose func(c *ctl, parked []*thread, step int) *thread) {
-	c := &ctl{byGoid: map[int64]*thread{}}
+func runCase(h *hx.T, tput int, posters []poster, choose func(c *ctl, parked []*thread, step int) *thread) {
+	c := &ctl{byGoid: map[int64]*thread{}, tput: tput}
 	// a bystander mailbox made by the SAME producer (one Props spawning several actors): a message
 	// is posted to it now and its run is deferred until this case is over; mailboxes must not share state
 	caseNo++
@@ -266,7 +317,7 @@ func runCase(h *hx.T, posters []poster, choose func(c *ctl, parked []*thread, st
 	mb.RegisterHandlers(c, c)
 	c.mb = mb
 	c.startConsumer()
-	h.Emit("reset", "ok")
+	h.Emit(fmt.Sprintf("reset t=%d", tput), "ok")
 	// system messages of kind suspend/resume are consumed by the mailbox itself; their
 	// ids are reported from the push order (FIFO of the system queue is what is checked)
 	var sysOrder []pmsg
@@ -280,7 +331,7 @@ func runCase(h *hx.T, posters []poster, choose func(c *ctl, parked []*thread, st
 					if len(m.batch) > 0 {
 						b := &ubatch{id: m.id}
 						for _, e := range m.batch {
-							b.elems = append(b.elems, &umsg{id: e.id, slow: e.slow})
+							b.elems = append(b.elems, &umsg{id: e.id, slow: e.slow, pan: e.pan})
 						}
 						if m.bk == "e" {
 							mb.PostUserMessage(actor.MessageEnvelope{Message: b})
@@ -288,7 +339,7 @@ func runCase(h *hx.T, posters []poster, choose func(c *ctl, parked []*thread, st
 							mb.PostUserMessage(b)
 						}
 					} else {
-						mb.PostUserMessage(&umsg{id: m.id, slow: m.slow})
+						mb.PostUserMessage(&umsg{id: m.id, slow: m.slow, pan: m.pan})
 					}
 				} else {
 					switch m.sk {
@@ -297,7 +348,7 @@ func runCase(h *hx.T, posters []poster, choose func(c *ctl, parked []*thread, st
 					case "r":
 						mb.PostSystemMessage(&actor.ResumeMailbox{})
 					default:
-						mb.PostSystemMessage(&smsg{id: m.id, slow: m.slow})
+						mb.PostSystemMessage(&smsg{id: m.id, slow: m.slow, pan: m.pan})
 					}
 				}
 			}
@@ -305,7 +356,7 @@ func runCase(h *hx.T, posters []poster, choose func(c *ctl, parked []*thread, st
 		}()
 	}
 	synctest.Wait()
-	for step := 0; step < 5000; step++ {
+	for step := 0; step < 20000; step++ {
 		var parked []*thread
 		c.mu.Lock()
 		for _, th := range c.threads {
@@ -326,16 +377,37 @@ func runCase(h *hx.T, posters []poster, choose func(c *ctl, parked []*thread, st
 		_ = sysPopBefore
 		if pt == "pu.push" {
 			op += fmt.Sprintf(" msg=%d slow=%d", th.curMsg, hx.B2i(th.curSlow))
+			if th.curPan {
+				op += " pan=1"
+			}
 			if th.curBt != "" {
 				op += " bt=" + th.curBt
 			}
 		}
 		if pt == "ps.push" {
 			op += fmt.Sprintf(" msg=%d sk=%s slow=%d", th.curMsg, th.curSK, hx.B2i(th.curSlow))
+			if th.curPan {
+				op += " pan=1"
+			}
 			sysOrder = append(sysOrder, pmsg{id: th.curMsg, sk: th.curSK})
+		}
+		if pt == "cons.take" {
+			c.runStart = time.Now() // run() reads beginTime right after being taken; virtual time stands still meanwhile
+		}
+		if pt == "run.iter" {
+			// the frame budget, decided by the CLOCK (not by where the implementation goes next): run() compares
+			// NowNano()-beginTime with maxProcessCost = 10 ms (Producer(10)); the model starts a pause / takes the
+			// Gosched branch exactly when this says so
+			over := 0
+			if time.Since(c.runStart) > 10*time.Millisecond {
+				over = 1
+				h.Count("gen.budget-exhausted")
+			}
+			op += fmt.Sprintf(" over=%d", over)
 		}
 		c.mu.Lock()
 		c.invLog = nil
+		c.escLog = nil
 		th.parked = false
 		c.mu.Unlock()
 		_, _, smBefore, _, _ := mb.VerifState()
@@ -363,10 +435,13 @@ func runCase(h *hx.T, posters []poster, choose func(c *ctl, parked []*thread, st
 			time.Sleep(time.Millisecond)
 			synctest.Wait()
 		}
-		inv := "-"
+		inv, esc := "-", "-"
 		c.mu.Lock()
 		if len(c.invLog) > 0 {
 			inv = strings.Join(c.invLog, "+")
+		}
+		if len(c.escLog) > 0 {
+			esc = strings.Join(c.escLog, "+")
 		}
 		c.mu.Unlock()
 		// a popped Suspend/Resume is not invoked: recognise it by the system counter
@@ -379,15 +454,8 @@ func runCase(h *hx.T, posters []poster, choose func(c *ctl, parked []*thread, st
 				}
 			}
 		}
-		if pt == "run.iter" {
-			over := 0
-			if th.point == "bp.cas" {
-				over = 1
-			}
-			op += fmt.Sprintf(" over=%d", over)
-		}
 		h.Count("pt." + th.kind + "." + pt)
-		h.Emit(op, c.state(inv))
+		h.Emit(op, c.state(inv, esc))
 	}
 	st, um, sm, susp, paused := mb.VerifState()
 	alive := 0
@@ -414,12 +482,47 @@ func runCase(h *hx.T, posters []poster, choose func(c *ctl, parked []*thread, st
 		}
 		h.Emit("bystander", obs)
 	}()
-	h.Emit("quiesce", fmt.Sprintf("quiet=%d st=%d um=%d sm=%d susp=%d paused=%d du=%s ds=%s", quiet, st, um, sm, susp, paused, ids(c.dlvU), ids(c.dlvS)))
+	h.Emit("quiesce", fmt.Sprintf("quiet=%d st=%d um=%d sm=%d susp=%d paused=%d du=%s ds=%s esc=%s", quiet, st, um, sm, susp, paused, ids(c.dlvU), ids(c.dlvS), ids(append(append([]int(nil), c.escAllU...), c.escAllS...))))
+}
+
+// genThroughput: what the dispatcher answers to Throughput(); small values make run() take its `i > t` branch in
+// every run of a few messages (the real scheDisp says 99: reached by genBacklog)
+func genThroughput(h *hx.T) int {
+	t := 99
+	if h.R.Intn(2) == 0 {
+		t = []int{0, 1, 1, 2, 2, 3, 5, 8}[h.R.Intn(8)]
+	}
+	h.Count(fmt.Sprintf("gen.throughput.%d", t))
+	return t
+}
+
+// genBacklog: 3 posters with 35-45 messages each (and sometimes a system poster), to be scheduled posters-first
+// (mode 5): one run of the consumer then finds a backlog of more than 100 messages — more iterations than the
+// throughput of the real dispatcher
+func genBacklog(h *hx.T) []poster {
+	var ps []poster
+	for i := 0; i < 3; i++ {
+		p := poster{kind: "u", id: i + 1}
+		n := 35 + h.R.Intn(11)
+		for k := 0; k < n; k++ {
+			p.msgs = append(p.msgs, pmsg{id: (i+1)*1000 + k + 1})
+		}
+		ps = append(ps, p)
+	}
+	if h.R.Intn(3) == 0 {
+		ps = append(ps, poster{kind: "s", id: 9, msgs: []pmsg{{id: 9001, sk: "n"}, {id: 9002, sk: "n"}}})
+	}
+	h.Count("gen.backlog")
+	return ps
 }
 
 func genPosters(h *hx.T) []poster {
 	var ps []poster
 	nu := 1 + h.R.Intn(3)
+	panics := h.R.Intn(4) == 0 // a case with panicking handlers
+	if panics {
+		h.Count("gen.panics")
+	}
 	for i := 0; i < nu; i++ {
 		p := poster{kind: "u", id: i + 1}
 		n := 1 + h.R.Intn(3)
@@ -428,7 +531,7 @@ func genPosters(h *hx.T) []poster {
 			h.Count("gen.ringgrowth")
 		}
 		for k := 0; k < n; k++ {
-			p.msgs = append(p.msgs, pmsg{id: (i+1)*1000 + k + 1, slow: h.R.Intn(6) == 0})
+			p.msgs = append(p.msgs, pmsg{id: (i+1)*1000 + k + 1, slow: h.R.Intn(6) == 0, pan: panics && h.R.Intn(4) == 0})
 		}
 		if n >= 2 && n <= 6 && h.R.Intn(5) == 0 {
 			// a MessageBatch: the first 1..n-1 messages become its elements, the batch message itself follows them
@@ -456,7 +559,7 @@ func genPosters(h *hx.T) []poster {
 		kinds := []string{"n", "s", "r", "n", "s", "r", "r"}
 		for k := 0; k < n; k++ {
 			sk := kinds[h.R.Intn(len(kinds))]
-			p.msgs = append(p.msgs, pmsg{id: 9000 + k + 1, sk: sk, slow: sk == "n" && h.R.Intn(3) == 0})
+			p.msgs = append(p.msgs, pmsg{id: 9000 + k + 1, sk: sk, slow: sk == "n" && h.R.Intn(3) == 0, pan: sk == "n" && panics && h.R.Intn(3) == 0})
 		}
 		if h.R.Intn(6) == 0 {
 			// directed: suspended, then a slow system handler starts a smoothing pause, then resume —
@@ -575,6 +678,20 @@ func chooser(h *hx.T, mode int) func(c *ctl, parked []*thread, step int) *thread
 				victim = nil
 				return parked[h.R.Intn(len(parked))]
 			}
+		case 5: // backlog: the posters run (nearly) to completion before the consumer moves
+			var cons *thread
+			var others []*thread
+			for _, th := range parked {
+				if th.kind == "c" {
+					cons = th
+				} else {
+					others = append(others, th)
+				}
+			}
+			if cons == nil || (len(others) > 0 && h.R.Intn(40) != 0) {
+				return others[h.R.Intn(len(others))]
+			}
+			return cons
 		default: // consumer-first: drain eagerly so posters keep finding the mailbox idle
 			for _, th := range parked {
 				if th.kind == "c" && h.R.Intn(4) != 0 {
@@ -590,17 +707,24 @@ func chooser(h *hx.T, mode int) func(c *ctl, parked []*thread, step int) *thread
 // chooser that follows the recorded schedule (thread name + yield point).
 func replayCases(h *hx.T, ops []string) {
 	var cases [][]string
+	var tputs []int
 	for _, op := range ops {
 		if strings.HasPrefix(op, "reset") {
 			cases = append(cases, nil)
+			t := 99
+			if _, ok := hx.KV(hx.Words(op), "t"); ok {
+				t = hx.KVInt(hx.Words(op), "t")
+			}
+			tputs = append(tputs, t)
 			continue
 		}
 		if len(cases) == 0 {
 			cases = append(cases, nil)
+			tputs = append(tputs, 99)
 		}
 		cases[len(cases)-1] = append(cases[len(cases)-1], op)
 	}
-	for _, cs := range cases {
+	for ci, cs := range cases {
 		byName := map[string]*poster{}
 		var order []string
 		for _, op := range cs {
@@ -618,7 +742,7 @@ func replayCases(h *hx.T, ops []string) {
 				order = append(order, name)
 			}
 			sk, _ := hx.KV(ws, "sk")
-			m := pmsg{id: hx.KVInt(ws, "msg"), slow: hx.KVInt(ws, "slow") == 1, sk: sk}
+			m := pmsg{id: hx.KVInt(ws, "msg"), slow: hx.KVInt(ws, "slow") == 1, sk: sk, pan: hx.KVInt(ws, "pan") == 1}
 			if bt, ok := hx.KV(ws, "bt"); ok && len(bt) >= 2 {
 				if n, err := strconv.Atoi(bt[1:]); err == nil && n <= len(p.msgs) {
 					m.bk = bt[:1]
@@ -633,7 +757,7 @@ func replayCases(h *hx.T, ops []string) {
 			ps = append(ps, *byName[n])
 		}
 		i := 0
-		runCase(h, ps, func(c *ctl, parked []*thread, step int) *thread {
+		runCase(h, tputs[ci], ps, func(c *ctl, parked []*thread, step int) *thread {
 			for i < len(cs) {
 				ws := hx.Words(cs[i])
 				i++
@@ -672,9 +796,14 @@ func TestRun(t *testing.T) {
 		}
 		n := hx.EnvInt("VERIF_N", 300)
 		for i := 0; i < n; i++ {
+			if h.R.Intn(40) == 0 {
+				h.Count("schedule.mode5")
+				runCase(h, 99, genBacklog(h), chooser(h, 5))
+				continue
+			}
 			mode := h.R.Intn(5)
 			h.Count(fmt.Sprintf("schedule.mode%d", mode))
-			runCase(h, genPosters(h), chooser(h, mode))
+			runCase(h, genThroughput(h), genPosters(h), chooser(h, mode))
 		}
 		h.Close()
 		syscall.Exit(0)
